@@ -1,4 +1,4 @@
-import RxnModel.Proofs.Files
+import RxnModel.Proofs.FilesLineage
 /-!
 # C09 — files needed by retained checkpoints or live tables are never deleted
 
@@ -12,7 +12,9 @@ The decision rules (`decision`, `needsTable`, which cleanup deletes) are read fr
 PARTIAL, by nature and by finding:
 * that Go's collector runs a cleanup only for an unreachable object (and when) is trusted; the harness forces
   collections at the trace's `gc` points and compares which cleanups ran with the model's unreachable set;
-* the global theorem is proved for one instance opened empty and never reopened (`no_needed_file_deleted_partial`).
+* the global theorem is proved for one operator lineage: one running instance at a time over any number of crash +
+  reopen generations (`no_needed_file_deleted_lineage_partial`; `no_needed_file_deleted_partial` is the one-generation
+  case, which also lets a crashed instance's leftover garbage be collected).
   The full statement
     `∀ as s, run {} as = some s → Safe s`   (any number of instances, crashes, releases, restores, rescales)
   is FALSE of the code as it is: `d25_counterexample` (an instance released inside a living process deletes the files
@@ -44,6 +46,53 @@ theorem retained_checkpoint_listed_partial (range : KGRange) (nbrs : List KGRang
     ∃ x, s.insts = [x] ∧ ∀ hd ∈ s.retained, ∃ c ∈ x.ckpts, c.id = hd.id ∧ c.tables = hd.tables ∧ c.wals = hd.wals := by
   obtain ⟨x, inv⟩ := runIn_inv1 (inv1_init range nbrs) h
   exact ⟨x, inv.shape, fun hd hh => (inv.own hd hh).2⟩
+
+/-! ## the global invariant across crash + reopen generations (one running instance at a time) -/
+
+/-- Lineage: any number of generations of one operator. An instance runs (flushes, compactions, checkpoints,
+retention updates that drop only checkpoints the job has dropped, snapshots, collections of any unreachable table
+object — written by the instance or loaded from the document — at any moment with any neighbour answers), its
+process dies, and a new instance is opened from ONE checkpoint handle the job still retains (any retained handle of
+any earlier instance, not necessarily the newest), when no other instance is running; and so on. In every state every
+file referenced by a job-retained checkpoint of any generation and every table of the running instance's level list
+is in the file store.
+Scope (`inScopeL`), i.e. what remains excluded: an instance released inside a living process (D25: its objects die
+while a successor uses the files); several instances alive at once and restores from several handles (rescale;
+D34: holders whose key range does not overlap a table are never consulted); cleanups run by a dead process. -/
+theorem no_needed_file_deleted_lineage_partial (range : KGRange) (nbrs : List KGRange) (as : List Act) (s : State)
+    (h : runL (init1 range nbrs) as = some s) : ∀ f ∈ needed s, f ∈ s.files := by
+  obtain ⟨dead, x, inv⟩ := runL_invL (invL_init range nbrs) h
+  exact inv.safe
+
+/-- …and every job-retained checkpoint of every generation is still listed, with the same tables and WALs, in the
+checkpoint list (= saved document) of the instance that wrote it. -/
+theorem retained_checkpoint_listed_lineage_partial (range : KGRange) (nbrs : List KGRange) (as : List Act) (s : State)
+    (h : runL (init1 range nbrs) as = some s) :
+    ∀ hd ∈ s.retained, ∃ d, s.insts[hd.writer]? = some d ∧
+      ∃ c ∈ d.ckpts, c.id = hd.id ∧ c.tables = hd.tables ∧ c.wals = hd.wals := by
+  obtain ⟨dead, x, inv⟩ := runL_invL (invL_init range nbrs) h
+  intro hd hh
+  by_cases hw : hd.writer = dead.length
+  · obtain ⟨⟨c, hc, hid⟩, hall⟩ := inv.ownCur hd hh hw
+    exact ⟨x, by rw [inv.shape, hw]; exact get_last dead x, c, hc, hid, hall c hc hid⟩
+  · obtain ⟨⟨d, hdd, ⟨c, hc, hid⟩, hall⟩, _⟩ := inv.ownOld hd hh hw
+    have hlt : hd.writer < dead.length := by have := inv.wlt hd hh; omega
+    exact ⟨d, by rw [inv.shape, get_old hlt]; exact hdd, c, hc, hid, hall c hc hid⟩
+
+/-- three generations: the second one compacts the restored table away, drops the restored checkpoint and its
+collection deletes the first generation's table file; the third restores from the second -/
+def lineageTrace : List Act :=
+  [.flush 0 ⟨"a0", 0, 7⟩, .ckpt 0 1 "w0", .flush 0 ⟨"a1", 0, 3⟩, .crash 0,
+   .openFrom ⟨0, 8⟩ 1 [] [0] 1, .flush 1 ⟨"b0", 0, 7⟩, .compact 1 ["a0", "b0"] [⟨"b1", 0, 7⟩], .collect 1 "b0" [],
+   .ckpt 1 2 "w1", .jobDrop 1, .retain 1 [2], .collect 1 "a0" [], .crash 1,
+   .openFrom ⟨0, 8⟩ 2 [] [1] 2, .flush 2 ⟨"c0", 4, 5⟩, .ckpt 2 3 "w2"]
+
+example : (runL (init1 ⟨0, 8⟩ []) lineageTrace).map (fun s => (s.files, needed s)) =
+    some ([.wal "w2", .sst "c0", .wal "w1", .sst "b1", .sst "a1"],
+          [.sst "c0", .sst "b1", .sst "c0", .sst "b1", .wal "w2", .sst "b1", .wal "w1"]) := by decide
+
+/-- while the job retains checkpoint 1 the second generation cannot collect the restored table -/
+example : runL (init1 ⟨0, 8⟩ []) (lineageTrace.take 9 ++ [.collect 1 "a0" []]) = none := by decide
 
 /-! ## WAL deletion at the save after a retention update -/
 
@@ -143,6 +192,40 @@ theorem neighbour_no_is_truthful (x : Inst) (u : Path) (h : needsTable x u = fal
     u ∉ uris x.current ∧ ∀ c ∈ x.ckpts, u ∉ uris c.tables :=
   needsTable_false h
 
+/-! ## `NeedsTable` is two reads -/
+
+/-- with nothing in between the two reads give the atomic answer -/
+theorem needsTable2_same (x : Inst) (u : Path) : needsTable2 x x u = needsTable x u := by
+  simp [needsTable2, needsFirst, needsSecond, Facts.c09NeedsLiveFirst, readLive, readCkpts, needsTable, Bool.or_comm]
+
+/-- A "no" is final (D46, repaired: `c09NeedsLiveFirst`). `DB.NeedsTable` reads the live level list in state `s1` and
+the checkpoint list in a later state `s2`; any actions of any instance — checkpoints, compaction commits, retention
+updates — may happen in between (`as`) and afterwards (`as'`). If the answer is "no" for a table that exists
+(`u ∈ s1.used`), then the instance does not need the table at the second read nor at any later moment: it is in no
+checkpoint of its list and not in its live level list. -/
+theorem two_read_no_is_final (s1 s2 s3 : State) (as as' : List Act) (j : Nat) (u : Path) (x1 x2 x3 : Inst)
+    (h12 : run s1 as = some s2) (h23 : run s2 as' = some s3)
+    (hx1 : s1.insts[j]? = some x1) (hx2 : s2.insts[j]? = some x2) (hx3 : s3.insts[j]? = some x3)
+    (hu : u ∈ s1.used) (hno : needsTable2 x1 x2 u = false) : needsTable x3 u = false := by
+  simp only [needsTable2, needsFirst, needsSecond, Facts.c09NeedsLiveFirst, beq_self_eq_true, if_true,
+    Bool.or_eq_false_iff] at hno
+  obtain ⟨y2, hy2, hu2, hn2⟩ := run_notLive h12 ⟨x1, hx1, hu, readLive_false hno.1⟩
+  rw [hx2] at hy2; injection hy2 with hy2; subst hy2
+  obtain ⟨y3, hy3, _, hn3, hc3⟩ := run_notNeeded h23 ⟨x2, hx2, hu2, hn2, readCkpts_false hno.2⟩
+  rw [hx3] at hy3; injection hy3 with hy3; subst hy3
+  exact needsTable_of_notNeeded hn3 hc3
+
+/-- The order matters: reading the checkpoint list first (the code before the repair) can answer "no" for a table
+the newest checkpoint references — checkpoint 2 captures `t1`, a compaction drops it, both between the two reads. -/
+def d46Before : List Act := [.openFresh ⟨0, 8⟩ 0 [], .flush 0 ⟨"t0", 0, 7⟩, .ckpt 0 1 "w0", .flush 0 ⟨"t1", 0, 7⟩]
+def d46Between : List Act := [.ckpt 0 2 "w1", .compact 0 ["t0", "t1"] [⟨"t2", 0, 7⟩]]
+
+theorem d46_counterexample :
+    ((run {} d46Before).bind fun s1 => (run s1 d46Between).bind fun s2 =>
+      match s1.insts[0]?, s2.insts[0]? with
+      | some x1, some x2 => some (readCkpts x1 "t1" || readLive x2 "t1", needsTable x2 "t1", needsTable2 x1 x2 "t1")
+      | _, _ => none) = some (false, true, true) := by decide
+
 /-! ## non-vacuity -/
 
 /-- a history inside the scope of the global theorem with two checkpoints, a compaction, a retention update that
@@ -186,7 +269,7 @@ Y's collection deletes the table without asking Z (Y's range contains it), while
 level list and in its retained checkpoint 2 (so the file is missing twice over). -/
 def d34Trace : List Act :=
   [.openFresh ⟨0, 8⟩ 0 [], .flush 0 ⟨"x0", 0, 1⟩, .ckpt 0 1 "w0", .crash 0,
-   .openFrom ⟨0, 4⟩ 1 [⟨4, 8⟩] 0 1, .openFrom ⟨4, 8⟩ 1 [⟨0, 4⟩] 0 1,
+   .openFrom ⟨0, 4⟩ 1 [⟨4, 8⟩] [0] 1, .openFrom ⟨4, 8⟩ 1 [⟨0, 4⟩] [0] 1,
    .flush 1 ⟨"y0", 0, 1⟩, .compact 1 ["x0", "y0"] [⟨"y1", 0, 1⟩], .ckpt 1 2 "w1", .ckpt 2 2 "w2", .jobDrop 1,
    .retain 1 [2], .collect 1 "x0" [.needs]]
 
